@@ -153,3 +153,13 @@ LIB_TEMPLATES += [
     "import contextlib\n\n\nasync def fetchAll(n):\n    return n\n\n\ndef countUp(n):\n    for i in range(n):\n        yield i\n\n\nfor idx in range(3):\n    lastSeen = idx\n\n"
     "with contextlib.nullcontext(5) as handle:\n    doubled = handle * 2\n\nif (found := doubled) > 3:\n    flagged = True\n",
 ]
+
+LIB_TEMPLATES += [
+    # 13: the gettext alias, imported by clients under the name _
+    "import gettext\n_ = gettext.gettext\n",
+    # 14: an import that clients re-import from here
+    "from os.path import join\nimport json as J\n",
+    # 15: a class reached only through a factory; clients call a method of the instance
+    "class Foo:\n    def __init__(self, x):\n        self.x = x\n\n    def stat(self):\n        return self.x * 5\n\n\ndef make(x):\n    return Foo(x)\n",
+]
+
